@@ -5,7 +5,7 @@ E: TLC checks Position.tla for every parameter value of each configuration: the 
    text, lexer column -> file column, bare `if:` condition, glob column, node position of keys / values) gives
    exactly the TRUTH read off the rendered text (Exact), the truth moves by exactly k when k blanks are put in
    front of the construct or k lines above it (ShiftLaw), and lies inside the file (InFile).
-G: every state of these runs is dumped: diagnostic class (catalogue of 92 classes: lexer / parser / semantic /
+G: every state of these runs is dumped: diagnostic class (catalogue of 98 classes: lexer / parser / semantic /
    untrusted / availability errors inside ${{ }} and bare `if:` conditions, unknown / duplicate keys, value errors
    of ids, shell names, permissions, runner labels, cron, events, matrix, needs, actions ..., characters of filter
    patterns) x placement (slot, quoting, block / flow, indentation unit, sequence indentation, nesting depth,
@@ -21,11 +21,16 @@ G: every state of these runs is dumped: diagnostic class (catalogue of 92 classe
    Two rules on one scalar: the slots filter / types / matrixdup2 and the classes *-expr put a construct diagnosed by
    RuleGlob / RuleEvents / RuleMatrix / RuleDeprecatedCommands / RuleIfCond next to one diagnosed by RuleExpression
    in the same scalar, so that a rule that disturbs the node position another rule reports later is seen.
+   Chosen positions: diagnostics whose position is chosen among candidates (later of two exclusive filter keys, first
+   job of a needs cycle, second of two equal values / keys / ids) are also generated in WRAPPED flow collections whose
+   continuation line is indented less than the first entry (line order and column order disagree), and the earlier
+   occurrence named in the message ("previously defined at line:L,col:C") must be the one TLC marked.
    Every diagnostic of every run (and of the repository's own test workflows): 1 <= line <= number of lines,
    col >= 1, unless it is the YAML-level syntax error.
 """
 import json
 import os
+import re
 
 import vplib
 from vplib import Inconclusive
@@ -36,13 +41,13 @@ PLANS = {
     'quick': [
         ('Position_arith_q.cfg', 'offset arithmetic: 4 classes x 12 slots x quoting x prefix 0..5 x earlier 0..3 x blanks 0..2'),
         ('Position_classes_q.cfg', 'all 27 expression classes x slots x quoting x block/flow'),
-        ('Position_kv_q.cfg', '65 key / value / glob classes (every parser diagnostic about a key or one-line value) x quoting x style x indentation x shifts k=1..3'),
+        ('Position_kv_q.cfg', '71 key / value / glob classes (every parser diagnostic about a key or one-line value) x quoting x style x indentation x shifts k=1..3'),
         ('Position_layout_q.cfg', 'expressions x indentation unit x sequence indentation x depth x style x shifts'),
     ],
     'thorough': [
         ('Position_arith_t.cfg', 'offset arithmetic: all 27 expression classes x 12 slots x quoting x block/flow x prefix 0..5 '
                                  'x earlier 0..3 x blanks 0..2 x depth'),
-        ('Position_kv_t.cfg', '65 key / value / glob classes x quoting x style x 5 indentation units x --- x shifts k=1..3'),
+        ('Position_kv_t.cfg', '71 key / value / glob classes x quoting x style x 5 indentation units x --- x shifts k=1..3'),
         ('Position_layout_t.cfg', 'expressions x 5 indentation units x sequence indentation x depth 0..2 x style x --- x '
                                   'shifts k=1..3'),
     ],
@@ -54,7 +59,7 @@ SLOT_SITE = {'ifb': 'if-cond-bare', 'ifw': 'if-cond-wrapped', 'matrix': 'matrix-
              'matrixdup2': 'matrix-value'}      # site = code path: both matrix slots go through checkRawYAMLString
 
 # parameters that only put something in front of / above the construct
-SHIFT_PARAMS = ('gap', 'kl', 'plen', 'ind', 'seqind', 'docstart', 'pad', 'neg')
+SHIFT_PARAMS = ('gap', 'kl', 'plen', 'ind', 'seqind', 'docstart', 'pad', 'neg', 'wrap')
 
 
 def site_of(v):
@@ -114,6 +119,22 @@ def expected(v):
     return sorted(e)
 
 
+_NAMED = re.compile(r'line:(\d+),col:(\d+)')
+
+
+def named_wrong(v, o):
+    """positions of an earlier occurrence named inside the message ("previously defined at line:L,col:C") that are
+    not the occurrence TLC marked; [] if the message names none or the right one"""
+    pv = v.get('prev')
+    if not pv or pv['line'] <= 0:
+        return []
+    bad = []
+    for d in o['diags']:
+        if d['kind'] == v['kind'] and v['phrase'] in d['msg']:
+            bad += [(int(a), int(b)) for a, b in _NAMED.findall(d['msg']) if (int(a), int(b)) != (pv['line'], pv['col'])]
+    return bad
+
+
 def judge(v, o):
     """-> ('ok' | 'undiagnosed' | 'wrong', positions) for one vector against the TLC prediction"""
     pos = positions(v, o)
@@ -130,7 +151,7 @@ def deltas_of(v, pos):
 
 
 def slim(v):
-    return {k: v[k] for k in ('cls', 'fam', 'kind', 'phrase', 'p', 'doc', 'exp', 'exp2', 'sc', 'nlines', 'tline')}
+    return {k: v[k] for k in ('cls', 'fam', 'kind', 'phrase', 'p', 'doc', 'exp', 'exp2', 'prev', 'sc', 'nlines', 'tline')}
 
 
 def light(v):
@@ -143,6 +164,7 @@ def run(ck, tier):
     seen = set()
     wrong = {}       # site -> {'n', 'deltas', 'classes', 'ex': (vector, out, positions)}
     bounds = {}      # site -> {'n', 'ex': (vector, out, bad)}
+    named = {}       # site -> {'n', 'ex': (vector, out, wrongly named positions)}
     judged, undiag = {}, {}
     pairs = set()
     vecs, res, keep = [], [], {}      # light vectors, (verdict, positions), full (vector, out) of the first vectors
@@ -176,6 +198,10 @@ def run(ck, tier):
             judged[cs] = judged.get(cs, 0) + 1
             if verdict == 'ok' and (selftest is None or (selftest[0]['p']['earlier'] == 0 and v['p']['earlier'] > 0)):
                 selftest = (slim(v), o, pos)
+            nb = named_wrong(v, o)
+            if nb:
+                w = named.setdefault('named:' + site_of(v), {'n': 0, 'ex': (slim(v), o, nb)})
+                w['n'] += 1
             if verdict == 'wrong':
                 w = wrong.setdefault(site_of(v), {'n': 0, 'deltas': set(), 'classes': set(), 'ex': (slim(v), o, pos)})
                 w['n'] += 1
@@ -219,6 +245,12 @@ def run(ck, tier):
                         expected(v)[0][0], expected(v)[0][1], pos, o['src']),
                      {'kind': 'exact', 'deltas': deltas, 'count': w['n'], 'classes': sorted(w['classes']), 'vector': v,
                       'src': o['src'], 'observed_positions': pos, 'observed': o['diags']})
+    for site, w in sorted(named.items()):
+        v, o, nb = w['ex']
+        ck.violation(site,
+                     '%s: the message of the %s diagnostic names %s as the earlier occurrence, which is at %d:%d, in %d of the '
+                     'generated placements:\n%s' % (site, v['cls'], nb, v['prev']['line'], v['prev']['col'], w['n'], o['src']),
+                     {'kind': 'named', 'count': w['n'], 'vector': v, 'src': o['src'], 'named': nb, 'observed': o['diags']})
     for site, lst in sorted(shift_bad.items()):
         r0, i, want, got = lst[0]
         ck.violation(site,
@@ -351,6 +383,10 @@ def replay(path):
         bad = bounds_bad(outs[0]['diags'], outs[0]['nlines'])
         print('diagnostics outside the file:', bad)
         return 1 if bad else 0
+    if rp['kind'] == 'named':
+        nb = named_wrong(vs[0], outs[0])
+        print('earlier occurrence at %s, wrongly named: %s' % (vs[0]['prev'], nb))
+        return 1 if nb else 0
     verdict, pos = judge(vs[0], outs[0])
     print('->', 'property holds' if verdict == 'ok' else 'not diagnosed' if verdict == 'undiagnosed' else 'VIOLATED')
     return 1 if verdict == 'wrong' else 0
